@@ -170,6 +170,21 @@ elif which == "M11":  # filter: SkipBranch(and_self=False) unlinks at once but u
         return
 
     def from_dict(''')
+elif which == "M15":  # remove(with_clones, keep_children) validates only the node itself, not all clones, up front
+    rep("nutree/node.py", '''                self._check_keep_children(self.get_clones(add_self=True))''', '''                self._check_keep_children([self])''')
+elif which == "M17":  # from_dict removes only the item that failed, not the whole half-built branch
+    rep("nutree/node.py", '''        assert not self._children
+        try:
+            for item in obj:''', '''        assert not self._children
+        child = None
+        try:
+            for item in obj:''')
+    rep("nutree/node.py", '''            # Do not leave a half-built branch behind
+            self.remove_children()
+            raise''', '''            # Do not leave a half-built branch behind
+            if child is not None and child._tree is not None:
+                child.remove()
+            raise''')
 else:
     raise SystemExit("unknown mutation")
 print("applied", which)
